@@ -930,8 +930,37 @@ func (g *ggen) cbBody(kind string) string {
 	return s
 }
 
+// stmtRegisterLoop: callbacks registered from inside a loop body that read a `let` of that body:
+// every iteration has its own block scope, so each callback keeps the value of ITS iteration.
+func (g *ggen) stmtRegisterLoop() {
+	g.cbs = true
+	c, k := g.ctr(), g.ctr()
+	n := g.r.Range(2, 3)
+	pick := g.r.Range(0, n)
+	var body string
+	if g.r.Bool() {
+		body = fmt.Sprintf("register_ult_cb ( %s , fn ( ) { print ( %s ) ; if %s == %d { return ult ( First ) ; } return null ; } ) ;",
+			term.Pick(g.r, []string{"1", "2", k}), k, k, pick)
+		g.regT = append(g.regT, 1)
+	} else {
+		body = fmt.Sprintf("register_skill_cb ( %s , fn ( ) { print ( %s ) ; if %s == %d { return skill ( First ) ; } return attack ( LowestHP ) ; } ) ;",
+			k, k, k, pick)
+		g.regT = append(g.regT, 0, 1, 2)
+	}
+	if g.r.Bool() {
+		g.w(fmt.Sprintf("for let %s = 0 ; %s < %d ; %s = %s + 1 { let %s = %s ; %s }", c, c, n+1, c, c, k, c, body))
+	} else {
+		g.w(fmt.Sprintf("let %s = 0 ; while %s < %d { let %s = %s ; %s = %s + 1 ; %s }", c, c, n+1, k, c, c, c, body))
+		g.top().vars[c] = "num"
+	}
+}
+
 func (g *ggen) stmtRegister() {
 	g.cbs = true
+	if g.loop == 0 && g.sw == 0 && g.r.Chance(1, 5) {
+		g.stmtRegisterLoop()
+		return
+	}
 	t := term.Pick(g.r, []string{"0", "1", "2", "alice", "1.0"})
 	g.regT = append(g.regT, map[string]int64{"0": 0, "1": 1, "2": 2, "alice": 1, "1.0": 0}[t])
 	effectful := g.r.Chance(1, 6)
